@@ -201,6 +201,14 @@ theorem C11_layout_insensitive (s s' : Parse.Spec) (h : s.ok = true) (h' : s'.ok
     · exact .inr (.inr (by rw [h1, h2, hn]))
 
 section examples
+
+/-- **layout-insensitive, with no budget in the statement**: two well-formed texts of the same declarations give the same
+    `Ast::new` result — same AST, same `Err`, or the same panic (`Ast.newLim`, Lemmas/PegLimit, is `Ast.new` wherever that
+    answers) -/
+theorem C11_layout_insensitive_total (s s' : Parse.Spec) (h : s.ok = true) (h' : s'.ok = true) (hn : s.norm = s'.norm) :
+    Ast.newLim (String.ofList s.text) = Ast.newLim (String.ofList s'.text) := by
+  rw [C12.C12_ast_from_declarations_total s h, C12.C12_ast_from_declarations_total s' h', hn]
+
 open Parse
 
 private def sp : Layout := ⟨[' '], []⟩
